@@ -22,11 +22,14 @@
    password_auth_requested = a password, password_change_requested = NotImplemented,
    client preferred_auth = [password], no rekey thresholds, no timers, no compression, no GSS, no EXT_INFO sent.
 
-   Two switches select proposed repairs; both false is the code as it is:
+   The functions that depend on them carry two switches ([..._g fixed fixk]) so that one set of lemmas
+   covers the code before and after two repairs:
    [fixed]  USERAUTH_SUCCESS is accepted only while a request of the current auth object has been issued
-            (finding C06/9);
-   [fixk]   a KEXINIT is refused while the peer's NEWKEYS is still awaited (finding: second exchange started
-            between our NEWKEYS and the peer's when strict KEX is not negotiated). *)
+            (/repo 5ecc05e); false = the code before that commit;
+   [fixk]   a KEXINIT is refused while the peer's NEWKEYS is still awaited (/repo 9276b6d); false = before.
+   THE MODEL OF RECORD is the repaired code: [dispatch], [recv], [step], [run] below are the _g functions at
+   true true, and only those are compared with the running code.  The [..._old] definitions (false false)
+   exist for the _refuted theorems about the code as it was. *)
 From AV Require Import Base.Prelude.
 
 Inductive task :=
@@ -166,7 +169,7 @@ Definition send_newkeys (c : conn) : conn :=
 
 (* ---- transport handlers --------------------------------------------------------------------------- *)
 (* KEXINIT.  cls: 0 = peer does not offer strict KEX, 1 = peer's strict marker present *)
-Definition on_kexinit (fixk : bool) (c : conn) (seq cls : Z) : conn :=
+Definition on_kexinit_g (fixk : bool) (c : conn) (seq cls : Z) : conn :=
   if kex c || (fixk && next_recv c) then fatal c
   else
     let c1 := if negb (sid c) && (cls =? 1) then set_strict true c else c in
@@ -249,7 +252,7 @@ Definition on_userauth_failure (c : conn) (cls : Z) : conn :=
   if negb (srv c1) && negb (auth c1 =? 0) then try_next_auth c1 false else fatal c1.
 
 (* USERAUTH_SUCCESS (client) *)
-Definition on_userauth_success (fixed : bool) (c : conn) : conn :=
+Definition on_userauth_success_g (fixed : bool) (c : conn) : conn :=
   if negb (srv c) && negb (auth c =? 0) && (negb fixed || req_issued c) then
     let c1 := set_unsolicited (unsolicited c || negb (req_issued c)) c in
     send_deferred (set_authed 1 (set_can_recv_ext false (set_auth_complete true (set_auth_in_prog false
@@ -263,35 +266,36 @@ Definition on_banner (c : conn) : conn := if srv c then fatal c else set_app_eve
    auth 1 = client 'none' (no handlers), 2 = client password (60 = PASSWD_CHANGEREQ), 3 = server password
    object (no handlers) *)
 Definition on_authmsg (c : conn) (seq t : Z) : conn :=
-  if (auth c =? 2) && (t =? 60) then set_pending (pending c ++ [TChangePw]) c
+  if (auth c =? 2) && (t =? 60)
+  then set_pending (filter not_client_task (pending c) ++ [TChangePw]) c     (* Auth.create_task cancels the start task *)
   else unimpl c seq.
 
 (* ---- the phase gate of _recv_packet ------------------------------------------------------------------- *)
 Definition is_deleg (t : Z) : bool :=
   (t =? 80) || (t =? 81) || (t =? 82) || (t =? 90) || (t =? 91) || (t =? 92) || ((93 <=? t) && (t <=? 127)).
 
-Definition on_connmsg (fixed fixk : bool) (c : conn) (seq t cls : Z) : conn :=
+Definition on_connmsg_g (fixed fixk : bool) (c : conn) (seq t cls : Z) : conn :=
   if t =? 1 then abort c
   else if (t =? 2) || (t =? 3) || (t =? 4) then c
   else if t =? 5 then on_service_request c cls
   else if t =? 6 then on_service_accept c cls
   else if t =? 7 then on_ext_info c
-  else if t =? 20 then on_kexinit fixk c seq cls
+  else if t =? 20 then on_kexinit_g fixk c seq cls
   else if t =? 21 then on_newkeys c cls
   else if t =? 50 then on_userauth_request c cls
   else if t =? 51 then on_userauth_failure c cls
-  else if t =? 52 then on_userauth_success fixed c
+  else if t =? 52 then on_userauth_success_g fixed c
   else if t =? 53 then on_banner c
   else unimpl c seq.
 
-Definition dispatch (fixed fixk : bool) (c : conn) (seq t cls : Z) : conn :=
+Definition dispatch_g (fixed fixk : bool) (c : conn) (seq t cls : Z) : conn :=
   if (30 <=? t) && (t <=? 49) then (if kex c then on_kexmsg c seq t cls else fatal c)
   else if strict c && negb (recv_enc c) && (2 <=? t) && (t <=? 4) then fatal c
   else if (60 <=? t) && (t <=? 79) then (if negb (auth c =? 0) then on_authmsg c seq t else fatal c)
   else if (49 <? t) && negb (recv_enc c) then fatal c
   else if (79 <? t) && negb (auth_complete c) then fatal c
   else if is_deleg t then set_deleg true c
-  else on_connmsg fixed fixk c seq t cls.
+  else on_connmsg_g fixed fixk c seq t cls.
 
 Definition with_conn (s : st) (c : conn) : st :=
   mkst c (recv_seq s) (send_seq s) (last_recv s) (last_sent s) (clear_acc s).
@@ -314,10 +318,10 @@ Fixpoint note_all (s : st) (l : list Z) : st :=
   end.
 
 (* one received packet *)
-Definition recv (fixed fixk : bool) (s : st) (t cls : Z) : st :=
+Definition recv_g (fixed fixk : bool) (s : st) (t cls : Z) : st :=
   if closed (cn s) then s
   else
-    let c1 := dispatch fixed fixk (cn s) (recv_seq s) t cls in
+    let c1 := dispatch_g fixed fixk (cn s) (recv_seq s) t cls in
     if closed c1 then with_conn s c1 else finish_recv s c1 t.
 
 (* ---- tasks ------------------------------------------------------------------------------------------------ *)
@@ -352,11 +356,11 @@ Inductive event :=
 | EvSettle.                      (* the event loop runs every ready task *)
 
 (* one event *)
-Definition step (fixed fixk : bool) (s : st) (e : event) : st :=
+Definition step_g (fixed fixk : bool) (s : st) (e : event) : st :=
   match e with
   | EvVersion =>
       if closed (cn s) then s else with_conn s (set_kexinit_sent true (send_kexinit (cn s)))
-  | EvRecv t cls => recv fixed fixk s t cls
+  | EvRecv t cls => recv_g fixed fixk s t cls
   | EvSettle => with_conn s (run_tasks TASK_FUEL (cn s))
   end.
 
@@ -365,10 +369,20 @@ Definition begin_step (s : st) : st := with_conn s (set_deleg false (set_olog []
 
 (* a run with the send-side bookkeeping applied to exactly the packets the model itself emits
    (the correspondence checker instead books every packet the real endpoint was seen to send) *)
-Definition step_booked (fixed fixk : bool) (s : st) (e : event) : st :=
-  let s1 := step fixed fixk (begin_step s) e in note_all s1 (map fst (olog (cn s1))).
+Definition step_booked_g (fixed fixk : bool) (s : st) (e : event) : st :=
+  let s1 := step_g fixed fixk (begin_step s) e in note_all s1 (map fst (olog (cn s1))).
 
-Definition run (fixed fixk : bool) (s : st) (l : list event) : st := fold_left (step_booked fixed fixk) l s.
+Definition run_g (fixed fixk : bool) (s : st) (l : list event) : st := fold_left (step_booked_g fixed fixk) l s.
+
+(* ---- the model of record (repaired code) and the old definitions --------------------------------------- *)
+Definition dispatch : conn -> Z -> Z -> Z -> conn := dispatch_g true true.
+Definition recv : st -> Z -> Z -> st := recv_g true true.
+Definition step : st -> event -> st := step_g true true.
+Definition step_booked : st -> event -> st := step_booked_g true true.
+Definition run : st -> list event -> st := run_g true true.
+(* the code before /repo 5ecc05e and 9276b6d *)
+Definition step_booked_old : st -> event -> st := step_booked_g false false.
+Definition run_old : st -> list event -> st := run_g false false.
 
 (* ---- the verdict vocabulary of the generated table ------------------------------------------------------ *)
 Inductive verdict := VH | VU | VF | VI | VL | VX.
@@ -442,11 +456,9 @@ Definition unassigned (t : Z) : bool :=
 
 Definition p_total (sv : bool) (ph : Z) (sk : bool) (va t : Z) (w v : verdict) : bool := negb (verdict_eqb v VX).
 
-(* before the first key exchange completes only what the exchange calls for is handled; known exception of
-   the code as it is: a KEXINIT between our NEWKEYS and the peer's when strict KEX is not negotiated *)
+(* before the first key exchange completes only what the exchange calls for is handled *)
 Definition p_prekex (sv : bool) (ph : Z) (sk : bool) (va t : Z) (w v : verdict) : bool :=
-  if (ph <=? 2) && verdict_eqb v VH
-  then calls_for sv ph t || (negb sk && (ph =? 2) && (t =? 20)) else true.
+  if (ph <=? 2) && verdict_eqb v VH then calls_for sv ph t else true.
 
 Definition p_preauth (sv : bool) (ph : Z) (sk : bool) (va t : Z) (w v : verdict) : bool :=
   if (ph <=? 4) && verdict_eqb v VH then t <=? 79 else true.
